@@ -41,13 +41,15 @@ var c29Specs = []lockSpec{
 			"(*Index).Open":       "open-time initialisation: the holder publishes the index only after Open returns",
 			"(*Index).openFields": "called from Open only"}},
 	{pkgRel: "", typ: "Holder", mutex: "mu", guarded: set("indexes"),
-		setup: map[string]string{"NewHolder": "constructor"}},
+		setup: map[string]string{"NewHolder": "constructor",
+			"(*Holder).Close": "teardown: runs after the server stopped accepting requests; nothing else reaches the holder"}},
 	{pkgRel: "", typ: "rankCache", mutex: "mu", guarded: set("entries", "rankings", "thresholdValue", "updateN", "updateTime"),
 		setup: map[string]string{"NewRankCache": "constructor"}},
 }
 
 func c29(p *core.Program, r *core.Report) {
 	r.Rule("R1", "lock discipline per guarded type (fragment, Field, view, Index, Holder, rankCache): every Lock/RLock is released on every exit; every access to a field the mutex guards happens with the mutex held, where a helper that accesses them unlocked (the unprotected* convention) must have the lock supplied by every caller up to the entry point; guarded fields are written only under the exclusive lock; a method that takes the lock is never called on the same object while it is held")
+	r.Rule("R2", "handed-out slices are never modified in place: a guarded slice field that a method returns to its callers (who read it after the lock is released) is only ever replaced by a freshly allocated slice — no element store, no sort, no append or re-slice that reuses its backing array")
 	r.NotDecided = "linearizability and data-race freedom in the happens-before sense for all schedules (dynamic/model-checking questions); fields outside the frozen guarded-by tables; lock-free structures"
 	total := 0
 	for _, spec := range c29Specs {
@@ -59,6 +61,7 @@ func c29(p *core.Program, r *core.Report) {
 		total += la.report(r, "R1")
 	}
 	r.Floor("C29/R1 functions touching a guarded type", total, 120)
+	c29HandOut(p, r)
 	// callers of the mutex vectors' Get must be fragment methods (which hold or require f.mu)
 	pk := p.Pkg("")
 	if pk != nil {
@@ -87,4 +90,130 @@ func c29(p *core.Program, r *core.Report) {
 		}
 		r.Floor("C29/R1 vector.Get call sites", n, 2)
 	}
+}
+
+// c29HandOut: rule R2.
+func c29HandOut(p *core.Program, r *core.Report) {
+	nFields := 0
+	for _, spec := range c29Specs {
+		pk := p.Pkg(spec.pkgRel)
+		if pk == nil {
+			continue
+		}
+		info := pk.TypesInfo
+		isField := func(e ast.Expr, f string) bool {
+			_, ok := core.FieldSel(info, e, core.ModPath, spec.typ, f)
+			return ok
+		}
+		for f := range spec.guarded {
+			// slice-typed and returned by some method?
+			handedOut := false
+			var where *ast.FuncDecl
+			for _, fd := range core.AllFuncDecls(pk) {
+				if fd.Body == nil || core.RecvName(fd) != spec.typ {
+					continue
+				}
+				ast.Inspect(fd.Body, func(n ast.Node) bool {
+					if ret, ok := n.(*ast.ReturnStmt); ok {
+						for _, e := range ret.Results {
+							if isField(e, f) {
+								if _, isSlice := info.TypeOf(e).Underlying().(*types.Slice); isSlice {
+									handedOut, where = true, fd
+								}
+							}
+						}
+					}
+					return true
+				})
+			}
+			if !handedOut {
+				continue
+			}
+			nFields++
+			construct := spec.typ + "." + f + " (handed out by " + core.FuncName(where) + ")"
+			bad := ""
+			var badPos ast.Node
+			for _, fd := range core.AllFuncDecls(pk) {
+				if fd.Body == nil {
+					continue
+				}
+				// locals derived from the field's backing array
+				derived := map[types.Object]bool{}
+				mentionsField := func(e ast.Expr) bool {
+					found := false
+					ast.Inspect(e, func(n ast.Node) bool {
+						if ex, ok := n.(ast.Expr); ok && isField(ex, f) {
+							found = true
+						}
+						if id, ok := n.(*ast.Ident); ok && derived[info.ObjectOf(id)] {
+							found = true
+						}
+						return true
+					})
+					return found
+				}
+				for pass := 0; pass < 2; pass++ {
+					ast.Inspect(fd.Body, func(n ast.Node) bool {
+						as, ok := n.(*ast.AssignStmt)
+						if !ok || len(as.Lhs) != len(as.Rhs) {
+							return true
+						}
+						for i, l := range as.Lhs {
+							id, ok := l.(*ast.Ident)
+							if !ok {
+								continue
+							}
+							rhs := ast.Unparen(as.Rhs[i])
+							// x := f[:0] / x := f / x = append(x-derived, ...)
+							switch y := rhs.(type) {
+							case *ast.SliceExpr:
+								if mentionsField(y.X) {
+									derived[info.ObjectOf(id)] = true
+								}
+							case *ast.CallExpr:
+								if core.BuiltinName(info, y) == "append" && len(y.Args) > 0 && mentionsField(y.Args[0]) {
+									derived[info.ObjectOf(id)] = true
+								}
+							default:
+								if isField(rhs, f) {
+									derived[info.ObjectOf(id)] = true
+								}
+							}
+						}
+						return true
+					})
+				}
+				ast.Inspect(fd.Body, func(n ast.Node) bool {
+					switch x := n.(type) {
+					case *ast.AssignStmt:
+						for i, l := range x.Lhs {
+							// element store f[i] = v
+							if ix, ok := ast.Unparen(l).(*ast.IndexExpr); ok && mentionsField(ix.X) {
+								bad, badPos = "stores into an element of the handed-out slice", x
+							}
+							_ = i
+						}
+					case *ast.CallExpr:
+						if core.BuiltinName(info, x) == "append" && len(x.Args) > 0 && mentionsField(x.Args[0]) {
+							bad, badPos = "appends into the handed-out slice's backing array (`"+types.ExprString(x)+"`)", x
+						}
+						if fn := core.CalleeOf(info, x); fn != nil && fn.Pkg() != nil && fn.Pkg().Path() == "sort" {
+							for _, a := range x.Args {
+								if mentionsField(a) {
+									bad, badPos = "sorts the handed-out slice in place", x
+								}
+							}
+						}
+					}
+					return true
+				})
+			}
+			if bad != "" {
+				r.Violate("R2", construct, p.Pos(badPos.Pos()), bad+": a reader that obtained the slice before the lock was released sees it change underneath it (torn or duplicated entries, a data race)")
+			} else {
+				r.HoldAt("R2", construct, p.Pos(where.Pos()), "only ever replaced by a freshly built slice")
+			}
+		}
+	}
+	r.Floor("C29/R2 guarded slices handed out to callers", nFields, 1)
 }
